@@ -18,6 +18,8 @@ KIND_PROFILES = {
               ('bind', 5), ('global', 3), ('mention', 4)],
     'objects': [('request_new', 14), ('event_new', 22), ('destroy', 12), ('delete_id', 12), ('mention', 12),
                 ('bind', 5), ('global', 3), ('churn', 5), ('bind_synth', 10), ('destroy_server', 14)],
+    'synth': [('bind_synth', 22), ('request', 24), ('event', 24), ('request_new', 8), ('event_new', 8), ('mention', 8),
+              ('destroy', 3), ('delete_id', 3)],
     'longchurn': [('churn', 90), ('delete_id', 5), ('destroy', 3), ('request_new', 2)],
 }
 
